@@ -124,6 +124,18 @@ def generate(rng, config):
     c = cligrammar.command_line(rng, tool, want_random=want, seed=seed,
                                 transforms=True, options=True)
     argv = c["argv"][1:]
+    # the seed option in every spelling argparse accepts
+    for i, a in enumerate(argv[:-1]):
+        if a in ("--seed", "-S"):
+            sp = rng.choice(["plain", "plain", "eq", "glued", "abbrev"])
+            val = argv[i + 1]
+            if sp == "eq":
+                argv[i:i + 2] = ["--seed=" + val]
+            elif sp == "glued" and not val.startswith("-"):
+                argv[i:i + 2] = ["-S" + val]
+            elif sp == "abbrev":
+                argv[i] = rng.choice(["--see", "--se"])
+            break
     if c["outfile"]:
         # keep the formula on stdout: compare bytes there
         i = argv.index("-o")
@@ -213,8 +225,10 @@ def execute(case, ctx):
 
 
 def _has_seed(argv):
-    for i, a in enumerate(argv[:-1]):
-        if a in ("--seed", "-S"):
+    for i, a in enumerate(argv):
+        if a in ("--seed", "-S", "--see", "--se") and i + 1 < len(argv):
+            return True
+        if a.startswith("--seed=") or (a.startswith("-S") and len(a) > 2):
             return True
     return False
 
